@@ -27,6 +27,12 @@ CHECKS = {
         "technique": SMT + "; linear identities over symbolic element entries, exhaustive bounded histories",
         "design_ref": "DESIGN.md section 5 (C03)",
     },
+    "C01": {
+        "text": "Bounded symbolic check of the patch test: the whole real solve pipeline (add_dirichlet with callable values, Assembly, Neumann/Dirichlet application, known/unknown split, reduced solve, update, Result) runs with the offset and gradient of the prescribed linear field as symbolic reals; interior dofs, element strains/stresses and the deformation energy come back as affine/quadratic forms and |result - exact| <= tol is decided by z3 for ALL field coefficients in [-1,1]^k, per enumerated (element type, law, real gmsh mesh / affine image / renumbering / mixed TRI3+QUAD4) configuration.",
+        "note": "Trusted: Sym arithmetic, z3, the linear-solver stub (exact elimination up to 45 unknowns, verified enclosure with bounded symbolic error above). Geometry and moduli are concrete and enumerated (not symbolic); beam patch tests are covered only when the beam jobs are present in the evidence; float round-off of the K assembly is inside the tolerance.",
+        "technique": SMT + "; whole-pipeline execution with symbolic boundary field",
+        "design_ref": "DESIGN.md section 5 (C01)",
+    },
 }
 
 NOT_APPLICABLE = {
